@@ -665,10 +665,21 @@ void StringDictionaryHTFC::locateBoundaryBuckets(uchar *str, uint strLen,
 
   uchar cmask = (uchar)(~(mask(8) >> offset));
 
+  // Copies the first strLen bytes of a header; bytes beyond the end of the
+  // sequence (the pattern can be longer than the last header) count as zeros
+  auto copyHeader = [&](size_t idbucket) {
+    size_t ptrH = blStrings->getField(idbucket);
+    size_t avail = bytesStrings - ptrH;
+    size_t n = (strLen < avail) ? strLen : avail;
+    memcpy(header, textStrings + ptrH, n);
+    if (n < strLen)
+      memset(header + n, 0, strLen - n);
+  };
+
   while (*left <= *right) {
     center = (*left + *right) / 2;
 
-    memcpy(header, getHeader(center), strLen);
+    copyHeader(center);
     if (offset != 0)
       header[strLen - 1] = header[strLen - 1] & cmask;
     cmp = memcmp(header, str, strLen);
@@ -702,7 +713,7 @@ void StringDictionaryHTFC::locateBoundaryBuckets(uchar *str, uint strLen,
     while (ll <= lr) {
       lc = (ll + lr) / 2;
 
-      memcpy(header, getHeader(lc), strLen);
+      copyHeader(lc);
       if (offset != 0)
         header[strLen - 1] = header[strLen - 1] & cmask;
       cmp = memcmp(header, str, strLen);
@@ -726,7 +737,7 @@ void StringDictionaryHTFC::locateBoundaryBuckets(uchar *str, uint strLen,
     while (rl < (rr - 1)) {
       rc = (rl + rr) / 2;
 
-      memcpy(header, getHeader(rc), strLen);
+      copyHeader(rc);
       if (offset != 0)
         header[strLen - 1] = header[strLen - 1] & cmask;
       cmp = memcmp(header, str, strLen);
